@@ -631,16 +631,16 @@ class HostConnectionPool(object):
             for i in range(core_conns):
                 self._connections.append(
                     session.cluster.connection_factory(host.endpoint, on_orphaned_stream_released=self.on_orphaned_stream_released))
+
+            self._keyspace = session.keyspace
+            if self._keyspace:
+                for conn in self._connections:
+                    conn.set_keyspace_blocking(self._keyspace)
         except Exception:
             # do not leak the connections that were already opened
             for conn in self._connections:
                 conn.close()
             raise
-
-        self._keyspace = session.keyspace
-        if self._keyspace:
-            for conn in self._connections:
-                conn.set_keyspace_blocking(self._keyspace)
 
         self._trash = set()
         self._next_trash_allowed_at = time.time()
